@@ -79,3 +79,39 @@ check('C09',
       TRUSTED + 'Only the instruction sets of this CPU can be toggled.',
       'TLA+ spec (Classify!ClosestList, ClosestAlgo) model-checked with TLC; TLC judges lists produced under several CPU-dispatch settings',
       'DESIGN.md 5 (C09)')
+
+check('C20',
+      'TLC model check of the list-backed collection as a state machine (every mutation an action, every transition asserted against '
+      'an independently stated postcondition; slice closed form == stepping) ; conformance in both directions: (judge) TLC judges every '
+      'index expression of a bounded grammar (ints, all slices over a range incl. step 0, all index lists <=3 as list/int8/int16/int64/'
+      'uint64 arrays, all masks, ill-typed indices) on collections of length 0..4/5 and 200 in four containers (array, list, annotated '
+      'wrapper, HDF5 file) against list semantics, with kmerspec/dtype preservation, unmodified index arrays and the values/bounds '
+      'representation invariant; all ordered pairs of an equality family; seeded random mutation histories; (generator) mutation '
+      'histories produced by TLC -simulate from the SigList spec replayed on the real SignatureList, state compared after every step. '
+      'A calibration family runs the same indices on a plain Python list and must be accepted by the spec.',
+      TRUSTED + 'Signature contents are shipped verbatim; step-0 slices may raise ValueError (as a list does).',
+      'TLA+ spec (SigIndex, SigList) model-checked with TLC; TLC judges exhaustive index records; TLC-generated histories replayed on the code',
+      'DESIGN.md 5 (C20)')
+
+check('C12',
+      'TLC model check of the writer protocol (a completed write is durable and complete on both write paths) and of the slice/index '
+      'semantics; conformance: TLC judges dump_signatures -> load_signatures round trips over k in {1,4,5,8,9,16,17,32}, all four index '
+      'widths with boundary values, empty signatures, four containers, six id kinds, five metadata variants incl. Unicode and nested '
+      'extra, compression none/gzip/lzf (content equality field by field), a menu of index expressions on every loaded file (shared '
+      'indexing clauses), and 30 foreign / damaged files (empty, magic prefixes, text, FASTA, gzip, sqlite, HDF5 without marker, marker '
+      'on a sub-group, magic + garbage ...) which must raise the dedicated error.',
+      TRUSTED + 'HDF5 internals are opaque (trusted); strings with NUL excluded.',
+      'TLA+ spec (SigStore, SigIndex) model-checked with TLC; TLC judges round-trip, indexing and refusal records of the real code',
+      'DESIGN.md 5 (C12)')
+
+check('C19',
+      'TLC model check of the storage-call protocol of both write paths against an abstract library model (metadata reaches the disk '
+      'only at flush/close, raw data at any time): in every reachable state - i.e. at every crash point and under every write-back '
+      'interleaving - a loadable file is complete; negative controls (extra flush, cache eviction) are violated. Conformance: (trace) the '
+      'real call sequences of dump_signatures, recorded by wrapping h5py in the writer process, are replayed through the same model by '
+      'TLC (trace validation with per-trace verdicts); (fault enumeration) a writer subprocess is killed with os._exit immediately '
+      'before each of its storage calls, for both paths, small and multi-megabyte payloads, with and without compression, and the '
+      'leftover file is loaded with the real loader; TLC judges the outcomes.',
+      TRUSTED + 'EvictionPossible = FALSE (metadata of a .gs file stays in the library cache until close); crashes inside a library call are out of scope.',
+      'TLA+ spec (SigStore) model-checked with TLC; TLC trace validation of recorded storage calls; crash-point enumeration on the real writer',
+      'DESIGN.md 5 (C19)')
